@@ -485,3 +485,88 @@ def rule_nrng(prog: Program, col: Collector) -> None:
             col.check(ok, f"{entry.module.rel()}:{entry.node.lineno}", "generators.GENERATORS",
                       f"GENERATORS[{key!r}] binds {uses_mod_rng} to the module-level RNG: only below a documented exception",
                       construct=f"registry-mod-rng:{key}", necessity="a seeded family must not draw from the unseeded module-level RNG")
+
+
+# --------------------------------------------------------------------------------------
+# N-ext / N-fac
+# --------------------------------------------------------------------------------------
+
+# documented preconditions of external graph generators for the smallest offered player count (n = 3):
+# one line per entry with the source of the constraint
+EXTERNAL_PRECONDITIONS = {
+    "networkx.connected_watts_strogatz_graph": ("k", lambda k: isinstance(k, int) and k <= 3,
+                                                "networkx raises NetworkXError when k > n; the registry is offered from n = 3 upwards"),
+    "networkx.gnp_random_graph": ("p", lambda p: isinstance(p, (int, float)) and 0 <= p <= 1, "a probability"),
+    "networkx.random_geometric_graph": ("radius", lambda r: isinstance(r, (int, float)) and r > 0, "a positive radius"),
+}
+
+
+def rule_next_nfac(prog: Program, col: Collector) -> None:
+    col.rule("N-ext", "literal arguments bound to external graph generators satisfy their documented preconditions at the smallest player count", 1)
+    n = 0
+    for key, ref, args, kwargs, entry, callee, module, env in generator_targets(prog):
+        for k, v in kwargs.items():
+            if isinstance(v, ast.Name) and isinstance(env.get(v.id), ast.AST):
+                v = env[v.id]
+            inner, iargs, ikw, imod, _ = unwrap_partial(prog, module, v, env)
+            iq = prog.resolve(imod, inner)
+            if iq in EXTERNAL_PRECONDITIONS:
+                pname, pred, why = EXTERNAL_PRECONDITIONS[iq]
+                if pname in ikw:
+                    try:
+                        val = ast.literal_eval(ikw[pname])
+                    except Exception:
+                        col.undecidable(f"{entry.module.rel()}:{entry.node.lineno}", "generators.GENERATORS", f"{iq}({pname}=...) is not a literal", rule="N-ext")
+                        continue
+                    n += 1
+                    col.check(bool(pred(val)), f"{entry.module.rel()}:{entry.node.lineno}", "generators.GENERATORS",
+                              f"GENERATORS[{key!r}]: {iq.rsplit('.', 1)[1]}({pname}={val}) - {why}", construct=f"external-precondition:{key}",
+                              necessity="every offered generator must be invocable for every player count from 3 upwards", rule="N-ext")
+    if n == 0:
+        raise AnalysisError("no external graph generator with a literal precondition found (registry changed shape)")
+
+    col.rule("N-fac", "owner-gated factory values: a coalition without the owner is stored with the literal value 0 (value_fn is applied to owner coalitions only)", 2)
+    for fname in ("generators.factory_generator", "generators.factory_cheerleader_generator"):
+        ref = prog.func(fname)
+        ft = fterms(prog, ref)
+        sets = [e for e in ft.calls("set_value") if any(f[0] == "for" for f in e.ctx) and len(e.args) == 2]
+        if not sets:
+            raise AnalysisError(f"{fname}: no set_value inside the coalition loop")
+
+        def owner_test(t):
+            """+1 if t means 'owner in coalition', -1 if 'owner not in coalition', 0 otherwise."""
+            pol = 1
+            while t[0] == "un" and t[1] == "not":
+                t, pol = t[2], -pol
+            if t[0] == "cmp" and t[1] in ("in", "not in") and any(s2[0] in ("call", "phi", "param") for s2 in [t[2]]) and "owner" in show(t[2]):
+                return pol if t[1] == "in" else -pol
+            return 0
+        zero_ok = False
+        bad = None
+        for e in sets:
+            val = e.args[0]
+            g = 0
+            for f in e.ctx:
+                if f[0] == "if":
+                    o = owner_test(f[1])
+                    if o:
+                        g = o if f[2] else -o
+            if g == -1:
+                if val == ("const", 0):
+                    zero_ok = True
+                else:
+                    bad = (e, f"a coalition without the owner is stored with {short(val, 50)}")
+            elif g == 0:
+                # unguarded store: the value itself must select the literal 0 for non-owner coalitions
+                ok_sel = False
+                if val[0] == "ifexp":
+                    o = owner_test(val[1])
+                    ok_sel = (o == 1 and val[3] == ("const", 0)) or (o == -1 and val[2] == ("const", 0))
+                if ok_sel:
+                    zero_ok = True
+                else:
+                    bad = (e, f"the stored value {short(val, 60)} is not the literal 0 for coalitions without the owner")
+        col.check(zero_ok and bad is None, ref.where((bad[0] if bad else sets[0]).node), ref.short,
+                  "coalitions without the owner get the literal value 0" + (f" ({bad[1]})" if bad else ""), construct="factory-non-owner-zero",
+                  necessity="value_fn(0) is not 0 for the registered exp / constant-1 value functions: the empty coalition would get a non-zero value and "
+                            "the game would not be superadditive (the in-code assertion then fails for every call of that CLI choice)", rule="N-fac")
